@@ -54,6 +54,7 @@ func checkC02(ctx *Ctx, r *Report) {
 	c01GoTemplateVariablesEscaped(ctx, r) // a union branch called Raw / Json: the decoders do not compile
 	c06FourthHunt(ctx, r)                 // enum members named like other declarations; builders of named optionals
 	c09FifthHunt(ctx, r)                  // Python methods shadowing imported modules; integer bounds that overflow int64 in the generated Go
+	c09SixthHunt(ctx, r)                  // Go arguments hiding the packages their builder imports
 	c02RuntimeGuard(ctx, r)
 	c02SortedSearch(ctx, r)
 	c02SortedSearchSelfTest(ctx, r)
